@@ -417,10 +417,79 @@ def unit_file_open(sess, ctx):
     return u
 
 
+def unit_accessors(sess, ctx):
+    """The audio parameters of every source kind read back through all six spellings (sampling_rate/sr,
+    sample_width/sw, channels/ch: AudioSource properties); is_open() of the buffer source;
+    StdinAudioSource.__init__ / FileAudioSource.__init__ (fields, width check, reads standard input's binary buffer)."""
+    names = ["sampling_rate", "sr", "sample_width", "sw", "channels", "ch"]
+    u = Unit("AudioSource parameter aliases, is_open, Stdin/File constructors",
+             [QI + "AudioSource." + x for x in names] + [QB + "is_open", QI + "StdinAudioSource.__init__",
+                                                           QI + "FileAudioSource.__init__"])
+    eng = setup(sess, [QI + "AudioSource.__init__", QI + "FileAudioSource.__init__"])
+    kinds = ["buffer", "raw", "wave", "stdin"]
+    PA = ("C11", "C05", "C09")
+
+    def run_(eng):
+        op = eng.choose(3, None, "aliases / is_open / stdin constructor")
+        if op == 2:
+            sr, sw, ch = Int("sr"), Int("sw"), Int("ch")
+            eng.assume(And(sr >= 1, ch >= 1))
+            stdin_buf = eng.st.new_obj("FileStream:stdin", {})
+            eng.modattrs["sys.stdin"] = eng.st.new_obj("SysStdin", {"buffer": stdin_buf})
+            me = eng.st.new_obj("StdinAudioSource", {})
+            okw = Or(sw == 1, sw == 2, sw == 4)
+            try:
+                eng.run_function(ctx.fi(QI + "StdinAudioSource.__init__"), [sr, sw, ch], {}, me)
+            except PyRaise as e:
+                eng.prove("C11:stdin-init:rejects-only-a-bad-width", And(e.exc == "AudioParameterError", Not(okw)), props=P11)
+                return None
+            h = eng.st.heap[me.oid]
+            eng.prove("C11:stdin-init:accepts-only-1/2/4-byte-samples", okw, props=P11)
+            eng.prove("C11:stdin-init:parameters", And(I(h["_sampling_rate"]) == sr, I(h["_sample_width"]) == sw,
+                                                        I(h["_channels"]) == ch) if all(is_int(h.get(k)) for k in
+                                                        ("_sampling_rate", "_sample_width", "_channels")) else False, props=PA)
+            eng.prove("C11:stdin-init:sample-size-is-width*channels",
+                      I(h["_sample_size"]) == sw * ch if is_int(h.get("_sample_size")) else False, props=P11 + ("C09",))
+            eng.prove("C11:stdin-init:starts-closed-reading-the-binary-standard-input",
+                      h.get("_is_open") is False and h.get("_stream") == stdin_buf, props=P11 + ("C09",))
+            return None
+        v = SV(eng)
+        kind = kinds[eng.choose(4, None, "source kind")]
+        is_open = eng.choose(2, None, "open/closed") == 0
+        base = {"_sampling_rate": v.sr, "_sample_width": v.sw, "_channels": v.ch}
+        if kind == "buffer":
+            me = buffer_obj(eng, v, is_open)
+        elif kind == "raw":
+            base.update({"_filename": "f.raw", "_audio_stream": None, "_sample_size": v.bps})
+            me = eng.st.new_obj("RawAudioSource", base)
+        elif kind == "wave":
+            base.update({"_filename": "f.wav", "_audio_stream": None})
+            me = eng.st.new_obj("WaveAudioSource", base)
+        else:
+            base.update({"_is_open": is_open, "_sample_size": v.bps, "_stream": None, "_audio_stream": None})
+            me = eng.st.new_obj("StdinAudioSource", base)
+        if op == 1:
+            if kind != "buffer":
+                raise PathEnd()        # file-backed kinds: unit file_read
+            r = eng.call_value(eng.getattr(me, "is_open"), [], {})
+            eng.prove("C11:buffer-is_open:tells-whether-open", r is is_open or (not isinstance(r, bool) and z3.is_true(z3.simplify(B(r) == is_open))),
+                      props=P11)
+            return None
+        exp = {"sampling_rate": v.sr, "sr": v.sr, "sample_width": v.sw, "sw": v.sw, "channels": v.ch, "ch": v.ch}
+        nm = names[eng.choose(6, None, "spelling")]
+        r = eng.getattr(me, nm)
+        eng.prove("C11:%s:%s-is-the-source's-own-parameter" % (kind, nm),
+                  z3.is_true(z3.simplify(I(r) == exp[nm])) if is_int(r) else False, props=PA)
+        return None
+    sess.run_unit(u, eng, run_)
+    return u
+
+
 UNITS = {
     "buffer_init": lambda sess, ctx, opts: unit_buffer_init(sess, ctx),
     "buffer_read": lambda sess, ctx, opts: unit_buffer_read(sess, ctx),
     "buffer_position": lambda sess, ctx, opts: unit_buffer_position(sess, ctx),
     "file_read": lambda sess, ctx, opts: unit_file_read(sess, ctx),
     "file_open": lambda sess, ctx, opts: unit_file_open(sess, ctx),
+    "accessors": lambda sess, ctx, opts: unit_accessors(sess, ctx),
 }
